@@ -251,6 +251,21 @@ Definition chk (c : streams * list (rop * xp)) : bool := replay (mkR (fst c) [] 
       chk.violation('oracle', 'the same Linen program with the same seeds handed out other keys on a later apply (nn.jit cache hit vs the apply that traced)', {'case': c, 'observed': runs})
     elif len({tuple(k) for k in runs[0]}) != len(runs[0]):
       chk.violation('oracle', 'one key was handed out twice within one apply under nn.jit', {'case': c, 'observed': runs[0]})
+  # sibling modules / child scopes passed as ARGUMENTS into a jitted or fold_rngs-wrapped module (F31)
+  ja = [{'form': f, 'nsib': rng.randint(2, 3), 'draws': rng.randint(1, 2), 'own': rng.random() < 0.6, 'applies': 2, 'seed': rng.randint(0, 99)}
+        for f in ('method', 'class', 'fold', 'core') for _ in range(3 if thorough else 1)]
+  jar = common.run_impl('impl_c09.py', {'jit_args': ja}, timeout=1500)['jit_args']
+  for c, r in zip(ja, jar):
+    chk.count({'linen_jit_arg_keys': c}, True)
+    if 'err' in r:
+      chk.violation('oracle', 'modules passed as arguments into nn.jit / fold_rngs could not be applied: %s' % r['err'], {'case': c, 'tb': r.get('tb')})
+      continue
+    runs = r['ok']['runs']
+    if any(run != runs[0] for run in runs):
+      chk.violation('oracle', 'the same program with the same seeds handed out other keys on a later apply (modules passed as arguments into nn.jit / fold_rngs)', {'case': c, 'observed': runs})
+    elif len({tuple(k) for k in runs[0]}) != len(runs[0]):
+      chk.violation('oracle', 'two draws at different module paths returned the same key: scopes handed to lift.jit / fold_rngs (%s form) as arguments lose their path' % c['form'],
+                    {'case': c, 'observed': runs[0]})
   # several Rngs objects in one model holding streams of the same name: reseed restarts each of them
   rm = [{'nblocks': rng.randint(2, 3), 'draws_before': [rng.randint(0, 3) for _ in range(3)], 'draws_after': rng.randint(1, 3), 'seed': rng.randint(40, 60)} for _ in range(12 if thorough else 4)]
   rr = common.run_impl('impl_c09.py', {'reseed_multi': rm})['reseed_multi']
